@@ -40,6 +40,16 @@ add("C11", "vf-sim", "property-based testing in a deterministic simulator over t
 add("C15", "vf-sim", "stateful property-based testing in a deterministic simulator: concurrent bind requests, permuted answers, teardown races; reuse probe with a scripted flow-id generator",
     "1-6 concurrent bind requests from either side with responder policies accept/reject/drop/hold answered in batches in generated order, binds disabled, optional connection end: each request resolves at most once (exactly once unless legitimately held), true iff the peer application accepted that very request, the responder sees exactly the requested type/host/port/flow id, and the id is proposed again by the next open.", SIM_NOTE)
 
+add("C08", "vf-sim", "fault injection by exhaustive cut-point enumeration over generated base executions in a deterministic simulator (every step x 9 fault kinds), property-based generation and shrinking of the base executions",
+    "For every generated base execution (streams mid-transfer, blocked writers/readers, pending open/accept/get_datagram/bind calls) every step is a cut point and every fault kind (peer Close, each direction cut with EOF or error, both, half-dead link with a silent peer, invalid frame with answering or silent peer, local Multiplexor drop) is injected in a fresh deterministic re-run; after running to quiescence the connection task must have finished, no application future may be blocked, reads are a consistent prefix then EOF, writes fail with BrokenPipe, calls return Closed, and after a local drop everything queued before is on the wire in order before Close.",
+    SIM_NOTE + " Exhaustive in the (cut point x fault kind) dimension of each base execution; the base executions themselves are sampled. One fault at a time.", cat="fault_enumeration")
+add("C10", "vf-sim", "bounded-exhaustive enumeration of hostile frame sequences (77-symbol alphabet, all sequences up to length 2/3) + random long sequences against a reference model of the flow-slot table, in a deterministic simulator with a scripted raw peer",
+    "One real endpoint with bystander streams, an established, a half-closed, a stale, a requested and a bind-requested flow receives every sequence of {Connect, Acknowledge(0|1|big), Reset, Finish, Push, Push burst beyond the window, Bind(1|3), Datagram} x {id 0, unknown, stale, target, half-closed, requested, bind-requested}: the Resets it emits must match a reference model of PROTOCOL.md per flow id (never a Reset for a Reset, only the offending flow on overrun), the task never exits, a fresh Connect and a local open still succeed, bystanders keep their data. Invalid (non-frame) messages must end the connection with InvalidFrame and resolve all pending operations, also with a silent peer.",
+    SIM_NOTE)
+add("C16", "vf-sim", "property-based testing on tokio's paused (virtual) clock with scripted pong policies and a timing oracle on exact virtual timestamps",
+    "The real connection task runs on a current-thread tokio runtime with a paused clock against a transport that answers each Ping after a generated delay, for k rounds, late or never: pings must be sent exactly every I, a KeepaliveTimeout must fall within [T, T+I] of the last pong, a surviving connection may have no pong-free gap above T+I, peers answering within the bound never time out, disabled values never ping/time out, and after the end the task future and pending calls complete even if the transport stays silent.",
+    "Trusted: tokio's paused clock (ms granularity; intervals multiples of 10 ms and delays ending in 5 ms avoid simultaneous events), the ClockWs transport of the harness. Sampling over (I,T,policy).")
+
 ENG = {
  "vf-pure": ("/verif/harness/vf-pure", "proptest + bounded-exhaustive enumeration against reference codecs/models (E1)"),
  "vf-sim": ("/verif/harness/vf-sim", "simnet: deterministic simulator around the real penguin-mux crate (E2) and tokio paused-clock engine (E3)"),
